@@ -55,6 +55,11 @@ def check_cut(case):
     cut = case['cut']
     data = bytes(stream[:cut])
     a, b = socket.socketpair()
+    if case.get('bigbuf'):
+        # room for the whole session in the kernel, so that everything is waiting before the first receive call
+        b.setsockopt(socket.SOL_SOCKET, socket.SO_SNDBUF, 1 << 22)
+        a.setsockopt(socket.SOL_SOCKET, socket.SO_RCVBUF, 1 << 22)
+        b.settimeout(20.0)
     port = None
     out = []
     got = []
@@ -564,6 +569,9 @@ def main(ctx):
     for drain in ('iterate', 'poll'):
         ctx.check({'kind': 'cut', 'msgs': long_msgs, 'cut': nb - 1, 'segs': list(range(30000, nb, 30000)),
                    'polls': list(range(0, 8)), 'drain': drain, 'timeout': 120.0}, classes=('volume',), sample=False)
+        # ... and the same session arriving as one backlog (nothing received until the peer has left)
+        ctx.check({'kind': 'cut', 'msgs': long_msgs, 'cut': nb - 1, 'segs': [], 'polls': [], 'drain': drain,
+                   'timeout': 120.0, 'bigbuf': True}, classes=('volume',), sample=False)
     for case in brokenpipe_cases():
         ctx.check(case, classes=('broken-pipe',), sample=False)
     try:
